@@ -451,21 +451,28 @@ func init() {
 			conc[k] = c
 		}
 		out := make(array, 32)
+		call := ufCall{in: append([]value(nil), in...)}
 		if allc {
 			sum := sha256.Sum256(conc)
 			for k := range out {
 				out[k] = sum[k]
+				call.out = append(call.out, i.tc.Const(SBV8, uint64(sum[k])))
 			}
-			return out
-		}
-		call := ufCall{in: append([]value(nil), in...)}
-		for k := 0; k < 32; k++ {
-			t := i.tc.Var(fmt.Sprintf("v_sha%d_%d", len(i.shaCalls), k), SBV8)
-			call.out = append(call.out, t)
-			out[k] = &Sym{t}
+			if i.solver == nil {
+				return out
+			}
+		} else {
+			for k := 0; k < 32; k++ {
+				t := i.tc.Var(fmt.Sprintf("v_sha%d_%d", len(i.shaCalls), k), SBV8)
+				call.out = append(call.out, t)
+				out[k] = &Sym{t}
+			}
 		}
 		me := mkStr(call.in)
 		for _, prev := range i.shaCalls {
+			if allc && !containsSym(prev.in, 0) {
+				continue // two concrete digests need no constraint
+			}
 			var same value = false
 			if len(prev.in) == len(call.in) {
 				same = i.strEq(mkStr(prev.in), me)
